@@ -20,7 +20,7 @@ Theorem C14_pushed_filters_are_top_conjuncts :
     In (op, al, col, v) (pushed c a) -> In (CCmp op al col v) (conjuncts c) /\ al = a.
 Proof. exact pushed_sound. Qed.
 Theorem C14_pushed_filters_complete_without_or :
-  forall c a, has_or c = false -> pushed c a = pushed_spec c a.
+  forall c a, has_or c = false -> pushed c a = filter not_isnull (pushed_spec c a).
 Proof. exact pushed_complete. Qed.
 Print Assumptions C14_pushed_filters_are_top_conjuncts.
 
